@@ -9,7 +9,7 @@ from jv.props import common as C
 
 ID = "C03"
 LEVEL = "exploration"
-BUDGET = {"quick": 900, "thorough": 14000}
+BUDGET = {"quick": 1600, "thorough": 20000}
 RULE = (
     "case = one core (DAG, exit codes, cancel flags) run under 2-4 generated variants (batch sizes, time-based "
     "batching, try-add-blocked, max-nodes, 1-3 groups, HPC or local mode), each with its own generated schedule (a "
